@@ -1297,8 +1297,8 @@ func TestCheck(t *testing.T) {
 		return
 	}
 
-	nSeq := r.N(2400, 50000)
-	nConc := r.N(120, 2000)
+	nSeq := r.N(2400, 250000)
+	nConc := r.N(120, 10000)
 	for i := 0; i < nSeq; i++ {
 		if seqCase(r, i) {
 			// a datapoint that is never forwarded was reproduced twice: every further case would
